@@ -299,10 +299,11 @@ func RealTimeRedis() (stop func()) {
 	atomic.StoreInt64(&redisPumpLag, 0)
 	done := make(chan struct{})
 	finished := make(chan struct{})
+	// on the wall clock before anything is written (an earlier case may have left it on a virtual one)
+	last := time.Now()
+	mr.SetTime(last)
 	go func() {
 		defer close(finished)
-		last := time.Now()
-		mr.SetTime(last)
 		tk := time.NewTicker(20 * time.Millisecond)
 		defer tk.Stop()
 		for {
